@@ -1201,7 +1201,16 @@ static void idxCmpR(C11Ctx& C, const SSVectorRational& x, const std::string& var
       if(i >= 0 && i < C.n && x[i] == 0) S.count("c11.sparse_result.indexed_zero");
    }
    for(int i = 0; i < C.n; i++) if(!in[(size_t)i] && x[i] != 0) bad = "non-zero at position " + std::to_string(i) + " missing from the index set";
-   if(!bad.empty()) S.viol("C11:" + variant + ":index-set:{utype=" + C.ut + "}", "set-up sparse result: " + bad, C.replay());
+   if(!bad.empty())
+   {
+      S.viol("C11:" + variant + ":index-set:{utype=" + C.ut + "}", "set-up sparse result: " + bad + " (n=" + std::to_string(C.n) + ", size " + std::to_string(x.size()) + ")", C.replay());
+      if(verbose)
+      {
+         fprintf(stderr, "C11 index set of %s:", variant.c_str());
+         for(int k = 0; k < x.size(); k++) fprintf(stderr, " %d:%s", x.index(k), x[x.index(k)].str().substr(0, 12).c_str());
+         fprintf(stderr, "\nmatrix:\n%s", matText(*C.M).c_str());
+      }
+   }
 }
 static std::vector<Q> rhsRational(Rng& g, int n, int kind, const QMat& M, bool left)
 {
